@@ -306,6 +306,19 @@ func (g *vfGen) scalar(t reflect.Type, owner, field string, minimal bool) reflec
 		if t.Kind() != reflect.Int8 && g.r.Intn(4) == 0 {
 			x = int64(g.r.Int31())
 		}
+		if g.r.Intn(6) == 0 {
+			ends := []int64{1<<15 - 1, -(1 << 15), 1<<31 - 1, -(1 << 31), 1 << 31, 1<<32 + 1, 1<<53 + 1, 1<<63 - 1, -(1 << 63)}
+			x = ends[g.r.Intn(len(ends))]
+			if bits := uint(t.Bits()); bits < 64 {
+				lim := int64(1)<<(bits-1) - 1
+				if x > lim {
+					x = lim
+				}
+				if x < -lim-1 {
+					x = -lim - 1
+				}
+			}
+		}
 		if minimal && x == 0 {
 			x = 7
 		}
@@ -314,6 +327,14 @@ func (g *vfGen) scalar(t reflect.Type, owner, field string, minimal bool) reflec
 		x := uint64(g.r.Intn(1000))
 		if g.r.Intn(4) == 0 {
 			x = uint64(g.r.Uint32())
+		}
+		if g.r.Intn(6) == 0 {
+			// the ends of every width the type can hold (counters are plain uint: 64 bits here)
+			ends := []uint64{1<<8 - 1, 1 << 8, 1<<16 - 1, 1 << 16, 1<<31 - 1, 1 << 31, 1<<32 - 1, 1 << 32, 1<<32 + 1, 1<<53 + 1, 1<<63 - 1, 1 << 63, 1<<64 - 1}
+			x = ends[g.r.Intn(len(ends))]
+			if bits := uint(t.Bits()); bits < 64 {
+				x &= 1<<bits - 1
+			}
 		}
 		if minimal && x == 0 {
 			x = 7
